@@ -7,9 +7,11 @@
 (*   object: [k, fn, items]                                                *)
 (*     k     in {"config","partial","list","tuple","dict","ntuple"}        *)
 (*     fn    callable index for Buildables (0 for containers)              *)
-(*     items sequence of [key, val]; key = parameter slot for Buildables   *)
-(*           (ascending = signature order), position for sequences, key    *)
-(*           id for dicts (sequence order = insertion order)               *)
+(*     items sequence of [key, val, tg]; key = parameter slot for          *)
+(*           Buildables (ascending = signature order), position for        *)
+(*           sequences, key id for dicts (sequence order = insertion       *)
+(*           order); val = 0 only for a tagged argument without a value;   *)
+(*           tg = bitmask of the tags attached to a Buildable's argument   *)
 (*                                                                         *)
 (* Heaps are built bottom-up by the action NewObj -- the model of "create  *)
 (* an object whose arguments/items are existing objects or leaves" -- so   *)
@@ -25,7 +27,8 @@ SetToSeq(s) ==   \* ascending
               ELSE LET m == CHOOSE x \in t : \A y \in t : x <= y IN <<m>> \o F(t \ {m})
   IN F(s)
 IsRef(v) == v < 0
-Item(k, v) == [key |-> k, val |-> v]
+Item(k, v) == [key |-> k, val |-> v, tg |-> 0]
+ItemT(k, v, t) == [key |-> k, val |-> v, tg |-> t]   \* t: bitmask of tags on the argument
 Obj(k, fn, items) == [k |-> k, fn |-> fn, items |-> items]
 IsBuildableKind(k) == k \in {"config", "partial"}
 
@@ -52,9 +55,10 @@ Canon(h, root) ==
      LET o == h[ord[i]] IN
      Obj(o.k, o.fn,
          [j \in 1..Len(o.items) |->
-            Item(o.items[j].key,
-                 IF IsRef(o.items[j].val) THEN -Pos(ord, -o.items[j].val)
-                 ELSE o.items[j].val)])]
+            ItemT(o.items[j].key,
+                  IF IsRef(o.items[j].val) THEN -Pos(ord, -o.items[j].val)
+                  ELSE o.items[j].val,
+                  o.items[j].tg)])]
 
 Iso(h1, r1, h2, r2) == Canon(h1, r1) = Canon(h2, r2)
 
@@ -90,14 +94,21 @@ AscSeqs(n, lo, m) ==
   IF n = 0 THEN {<<>>}
   ELSE UNION {{<<k>> \o s : s \in AscSeqs(n - 1, k + 1, m)} : k \in lo..m}
 
-NewObjects(h, kd, maxItems, nleaves, nkeys) ==
+NewObjectsT(h, kd, maxItems, nleaves, nkeys, tagChoices, unsetTagged) ==
   UNION {
     LET keyseqs == IF IsBuildableKind(kd.k) THEN AscSeqs(n, 1, kd.slots)
                    ELSE IF kd.k = "dict" THEN AscSeqs(n, 1, nkeys)
                    ELSE {[j \in 1..n |-> j - 1]}
-    IN {Obj(kd.k, kd.fn, [j \in 1..n |-> Item(ks[j], vs[j])])
-          : ks \in keyseqs, vs \in [1..n -> Values(h, nleaves)]}
+        vals == Values(h, nleaves) \cup (IF unsetTagged /\ IsBuildableKind(kd.k) THEN {0} ELSE {})
+        tgs == IF IsBuildableKind(kd.k) THEN tagChoices ELSE {0}
+    IN {Obj(kd.k, kd.fn, [j \in 1..n |-> ItemT(ks[j], vs[j], ts[j])])
+          : ks \in keyseqs,
+            vs \in [1..n -> vals],
+            ts \in {t \in [1..n -> tgs] : \A j \in 1..n : TRUE}}
     : n \in (IF kd.k = "ntuple" THEN {kd.slots} ELSE 0..maxItems)}
+
+NewObjects(h, kd, maxItems, nleaves, nkeys) ==
+  NewObjectsT(h, kd, maxItems, nleaves, nkeys, {0}, FALSE)
 
 \* objects (other than the youngest) nobody refers to yet
 Orphans(h) ==
